@@ -396,9 +396,13 @@ type c11Inj struct {
 	Read   int  `json:"read,omitempty"` // 1 = resume readers before this step, 2 = pause
 	GapMs  int  `json:"gap,omitempty"`
 	FwdDup int  `json:"fwddup,omitempty"` // FORWARD-TSN: a second entry for the same stream: 0 none, k>0 sequence number k-1 lower, listed first or second by parity
+	// AppClose: before this step the receiving application closes its stream SID: 1 Close(),
+	// 2 a read deadline that has expired and then Close(); the peer keeps sending on it
+	AppClose int `json:"appclose,omitempty"`
 }
 
 type c11Wire struct {
+	Opt vfOptMix `json:"opt,omitempty"` // options that must not matter here
 	IL   bool     `json:"il"`
 	RBuf int      `json:"rbuf"`
 	TSN  uint32   `json:"tsn"`
@@ -415,6 +419,7 @@ func genC11Wire(rt *rapid.T) c11Wire {
 	if rapid.IntRange(0, 2).Draw(rt, "seqwrap") == 0 {
 		sc.SeqBase = uint32(0) - uint32(rapid.IntRange(1, 5).Draw(rt, "seqd"))
 	}
+	sc.Opt = genOptMix(rt, "opt")
 	n := rapid.IntRange(1, 60).Draw(rt, "n")
 	for i := 0; i < n; i++ {
 		j := c11Inj{SID: rapid.IntRange(0, 3).Draw(rt, "sid"), Len: rapid.SampledFrom([]int{1, 100, 700, 1200, 1200, 4000}).Draw(rt, "len"),
@@ -435,6 +440,9 @@ func genC11Wire(rt *rapid.T) c11Wire {
 		default:
 			j.Off = 1
 		}
+		if rapid.IntRange(0, 14).Draw(rt, "appclose") == 0 {
+			j.AppClose = rapid.IntRange(1, 2).Draw(rt, "appclosek")
+		}
 		switch rapid.IntRange(0, 11).Draw(rt, "rd") {
 		case 0:
 			j.Read = 1
@@ -447,8 +455,16 @@ func genC11Wire(rt *rapid.T) c11Wire {
 }
 
 func runC11Wire(t *testing.T, sc c11Wire, verbose bool) (c vfCase) {
+	return runC11WireX(t, sc, verbose, false)
+}
+
+// runC11WireX: with sackTruth the run also judges C05's converse clause at every step: a chunk
+// that was stored must be recorded as received (so that the next SACK reports it), also when
+// it filled a gap while the advertised window was zero.
+func runC11WireX(t *testing.T, sc c11Wire, verbose bool, sackTruth bool) (c vfCase) {
 	var e1 vfE1
 	e1.Cfg[0] = vfSideCfg{IL: sc.IL, TSN: 50, RBuf: sc.RBuf}
+	sc.Opt.apply(&e1.Cfg[0])
 	e1.NoRead[0] = true // reads are performed synchronously by the script
 	pm := vfBubble(t, func() {
 		s := newVfSim(t, &e1, verbose)
@@ -495,6 +511,8 @@ func runC11Wire(t *testing.T, sc c11Wire, verbose bool) (c vfCase) {
 			c.class("sequence-numbers-near-wrap")
 		}
 		zeroEpisode, purgeWithData := false, false
+		appClosed := false
+		gapFillAtZero := false
 		hiTSN := sc.TSN - 1
 		hiSeq := map[[2]int]int{} // (sid, unordered) -> highest sequence number used
 		for i, j := range sc.Inj {
@@ -506,6 +524,23 @@ func runC11Wire(t *testing.T, sc c11Wire, verbose bool) (c vfCase) {
 			}
 			if j.Read == 1 {
 				s.drainReads(0)
+			}
+			if j.AppClose > 0 {
+				s.mu.Lock()
+				var h *vfStreamH
+				if l := s.bySID[0][uint16(j.SID)]; len(l) > 0 {
+					h = l[len(l)-1]
+				}
+				s.mu.Unlock()
+				if h != nil {
+					if j.AppClose == 2 {
+						_ = h.s.SetReadDeadline(time.Now().Add(-time.Second))
+						s.o.settle(time.Millisecond)
+					}
+					_ = h.s.Close()
+					s.o.settle(0)
+					appClosed = true
+				}
 			}
 			pk0 := vfPeekAssoc(a)
 			creditBefore := pk0.MyRwnd
@@ -613,6 +648,18 @@ func runC11Wire(t *testing.T, sc c11Wire, verbose bool) (c vfCase) {
 					c.fail("stored-at-zero-window", "step %d: advertised window was 0 yet chunk TSN %d (highest received %d/%v) was stored", i, tsn, lastBefore, haveLast)
 				}
 			}
+			if sackTruth && !j.Fwd && heldAfter > heldBefore {
+				a.lock.RLock()
+				rec := sna32LTE(tsn, a.peerLastTSN()) || a.payloadQueue.hasChunk(tsn)
+				a.lock.RUnlock()
+				if !rec {
+					c.fail("accepted-tsn-not-recorded", "step %d: chunk TSN %d was stored (held bytes %d -> %d, advertised window before: %d) but is not recorded as received: the next SACK will not report it", i, tsn, heldBefore, heldAfter, creditBefore)
+					break
+				}
+				if creditBefore == 0 {
+					gapFillAtZero = true
+				}
+			}
 			if creditBefore == 0 {
 				zeroEpisode = true
 			}
@@ -667,6 +714,12 @@ func runC11Wire(t *testing.T, sc c11Wire, verbose bool) (c vfCase) {
 		}
 		if zeroEpisode {
 			c.class("zero-window-episode")
+		}
+		if appClosed {
+			c.class("receiving-application-closed-a-stream")
+		}
+		if gapFillAtZero {
+			c.class("gap-filled-at-zero-window")
 		}
 		if purgeWithData {
 			c.class("forward-tsn-purged-held-data")
